@@ -109,6 +109,7 @@ def plan(tier, seed):
     units = [{'lo': lo, 'hi': min(n, lo + chunk), 'tier': tier} for lo in range(0, n, chunk)]
     units.append({'special': 'wide', 'tier': tier})
     units.append({'special': 'two-checkers', 'tier': tier})
+    units.append({'special': 'builtins', 'tier': tier})
     return {
         'units': units,
         'rule': 'program = schema of the bounded grammar (complete enumeration); for each, every name of length 0..Lmax+1 (at most 5) over '
@@ -200,10 +201,57 @@ def fn_schemas():
             yield [{'id': '#r', 'name': nm, 'cons': [[['x', opts]]], 'sign': []}]
 
 
+def check_builtins():
+    """the user functions the library ships ($eq, $eq_type) with component types on both sides of the one-byte type limit"""
+    from ndn.app_support.light_versec.checker import DEFAULT_USER_FNS
+    viol = []
+    comps = [ts_tlv(t, v) for t in (8, 32, 252, 253, 300, 301, 65535) for v in (b'a', b'')]
+    for fname, ref_fn in (('$eq', lambda c, args: all(bytes(x) == bytes(c) for x in args)),
+                          ('$eq_type', lambda c, args: all(type_of(x) == type_of(c) for x in args))):
+        fn = DEFAULT_USER_FNS.get(fname)
+        if fn is None:
+            viol.append((f'C11|builtin|{fname}|missing', 'not in DEFAULT_USER_FNS'))
+            continue
+        for c in comps:
+            for a in comps:
+                for args in ([a], [a, c], []):
+                    try:
+                        got = bool(fn(c, list(args)))
+                    except Exception as e:  # noqa
+                        viol.append((f'C11|builtin|{fname}|raises:{type(e).__name__}', f'{fname}({c.hex()}, {[x.hex() for x in args]}): {e!r}'))
+                        return viol
+                    if got != ref_fn(c, args):
+                        viol.append((f'C11|builtin|{fname}|wrong', f'{fname}({c.hex()}, {[x.hex() for x in args]}) = {got}'))
+                        return viol
+    return viol
+
+
+def ts_tlv(t, v):
+    from mc.ref import tlv_strict as ts
+    return ts.tlv(t, v)
+
+
+def type_of(c):
+    from mc.ref import tlv_strict as ts
+    return ts.read_single(bytes(c)).typ
+
+
 def unit_special(arg):
     acc = Acc()
     acc.state_hashes = None
     install_lark_cache()
+    if arg['special'] == 'builtins':
+        viol = check_builtins()
+        acc.evaluations += 1
+        acc.state_count += 1
+        acc.nontrivial += 1
+        acc.transitions += 14 * 14 * 3 * 2
+        acc.outcome(f"builtins|{'ok' if not viol else 'viol'}")
+        acc.observe(['builtins', [v[0] for v in viol]])
+        for sig, what in viol:
+            acc.violation(sig, what, {'special': 'builtins', 'schema': None})
+        acc.sample({'special': 'builtins', 'component_types': [8, 32, 252, 253, 300, 301, 65535]})
+        return acc
     gen = wide_schemas() if arg['special'] == 'wide' else fn_schemas()
     fn = check_wide if arg['special'] == 'wide' else check_two_checkers
     for schema in gen:
@@ -245,6 +293,8 @@ def unit(arg):
 
 def replay(case):
     install_lark_cache()
+    if case.get('special') == 'builtins':
+        return [{'sig': s, 'what': w} for s, w in check_builtins()]
     if 'special' in case:
         viol = (check_wide if case['special'] == 'wide' else check_two_checkers)(case['schema'])
         return [{'sig': s, 'what': w} for s, w in viol]
